@@ -50,6 +50,10 @@ SPEC = dict(
          'sets x 4 orders (all orders thorough), width 4 sampled key sets (all 65535 thorough), widths 5..1023 prefix-sharing patterns; key forms '
          'int/bytes/bit string/Address(267)/hashed string; invalid keys (negative, >= 2^n, over-long bytes, empty bit string); each case goes through '
          'serialize, HashMap.parse, from_cell, store_dict+load_dict/preload_dict/load_hashmap and the Lean model; distinct = distinct case; '
+         'keys well-formed in TWO key forms at once (c09_twoform.py, gen/twoform.py), constructed not sampled: 48-character numerals in every spelling int(s, 2) '
+         'admits (plain, +, -, blanks, underscore, 0b) and hex-/digit-looking texts that base64-decode to 34 bytes + their CRC-16 (GF(2) elimination on the free bits), '
+         'wc:hex raw-address texts in binary / decimal / hex digits, friendly address texts; as str keys, as hashed texts and as bytes keys (ASCII, the 36 / 34 / 33 / 32 '
+         'decoded bytes) at the widths around their value: filed under the declared reading only; '
          'non-trivial = at least one accepted key',
     trusted_base=['Model/Hashmap.lean mirrors hashmap.py / utils.py / parse.py by hand; Generated/LabelFns.lean is translated from utils.py each run',
                   'harness/translate/labelfns.py (Python subset -> Lean)', 'value serialisers modelled as "append these bits/refs"',
